@@ -542,7 +542,7 @@ def g5_typed_property_call(ctx: Ctx, scope, rule="G5"):
     return n
 
 
-# --------------------------------------------------------------------------- G12  dead parameter
+# --------------------------------------------------------------------------- G18  dead parameter (G12 is the precondition rule of C13.c)
 # A named parameter that the body never reads cannot influence the result: when the signature documents it as an option
 # (not as a slot of a protocol) the option is silently ignored.  Exempt: stubs / abstract methods, methods overriding a
 # base-class method that has the same parameter (signature conformance), and the protocol tables below.
@@ -559,7 +559,7 @@ def _is_stub(node) -> bool:
     return not body or all(isinstance(s, (ast.Pass, ast.Raise)) or (isinstance(s, ast.Expr) and isinstance(s.value, ast.Constant)) for s in body)
 
 
-def g12_dead_parameter(ctx: Ctx, scope, rule="G12"):
+def g12_dead_parameter(ctx: Ctx, scope, rule="G18"):
     n = 0
     for f in scope:
         node = f.node
